@@ -89,3 +89,25 @@ def mentions_field(f, nid, field):
         if n["k"] == "member" and n["field"] == field:
             return True
     return False
+
+
+def conn_update_fn(P, t):
+    """The connection-side update helper of a byte-stream transport, found by role and
+    not by name: the function reachable from the table's update slot, defined in the same
+    file, that switches on the connection's `state` field and drives the bell."""
+    from . import cfg as C
+    root = t.slots["update"]
+    seen, work, out = {root.key}, [root], []
+    while work:
+        f = work.pop()
+        sw = [b for b in f.blocks.values() if b.term and b.term["k"] == "SwitchStmt" and b.term.get("cond") is not None
+              and f.fields_of(b.term["cond"])[-1:] == ("state",)]
+        if sw and any(True for _ in f.calls("xpoll_bell_reg_mod")):
+            out.append(f)
+        for c in f.calls():
+            defs, _ = P.callees(f, c)
+            for d in defs:
+                if d.key not in seen and d.file == root.file:
+                    seen.add(d.key)
+                    work.append(d)
+    return out
